@@ -421,6 +421,34 @@ func crCases(c *core.Ctx) ([]json.RawMessage, error) {
 			crAdd(&out, seen, crCase{Entry: "jdoc", Text: []byte("[" + q + ", {" + q + ": " + q + "}]"), Src: "JsonDoc/pumped"})
 			crAdd(&out, seen, crCase{Entry: "regex", Text: []byte("/" + string(run) + "/"), Src: "RegexDelim/pumped"})
 		}
+		// long runs: digits and letters far beyond any fixed-size buffer or "reasonable" limit an implementation may
+		// have (around 300 = float64 range, 1000, 4096, 65536), as bare numbers and inside strings, in every entry point
+		nl := 0
+		for _, n := range c.PickInts([]int{310, 1001, 1100, 4097, 70000}, []int{25, 310, 999, 1000, 1001, 1100, 4097, 65535, 65537, 70000, 1000000}) {
+			d := strings.Repeat("7", n)
+			for _, num := range []string{d, "-" + d, d + "." + d, "0." + d, "1" + strings.Repeat("0", n), "0." + strings.Repeat("0", n) + "1"} {
+				for _, e := range []string{"[" + num + ", 1]", "[1, " + num + "]", "[" + num + ", " + num + "]", "[\"a\", // n\n " + num + "]"} {
+					crAdd(&out, seen, crCase{Entry: "enum", Text: []byte(e), Src: "EnumRule/long-number"})
+				}
+				for _, e := range []string{num, "{\"k\": " + num + "}", "[" + num + "]", num + " // {min: " + num + "}", "1 // {enum: [" + num + ", 1]}", "1.5 // {type: \"decimal\", precision: " + num + "}", "\"s\" // {minLength: " + num + "}", num + " // {const: true}", num + " // {or: [\"integer\", \"string\"]}"} {
+					crAdd(&out, seen, crCase{Entry: "schema", Text: []byte(e), Src: "JSchemaScan/long-number"})
+					crAdd(&out, seen, crCase{Entry: "type", Text: []byte(e), Src: "JSchemaScan/long-number"})
+				}
+				crAdd(&out, seen, crCase{Entry: "jdoc", Text: []byte("[" + num + ", {\"k\": " + num + "}]"), Src: "JsonDoc/long-number"})
+				crAdd(&out, seen, crCase{Entry: "number", Text: []byte(num), Src: "Number/long-number"})
+				nl += 24
+			}
+			q := `"` + strings.Repeat("a", n) + `"`
+			for _, e := range []string{"[" + q + ", 1]", "[" + q + ", " + q + "]"} {
+				crAdd(&out, seen, crCase{Entry: "enum", Text: []byte(e), Src: "EnumRule/long-string"})
+			}
+			for _, e := range []string{q, "{" + q + ": 1}", q + " // {enum: [" + q + "]}", q + " // {regex: " + q + "}", "1 // - " + strings.Repeat("n", n), "@" + strings.Repeat("a", n), "# " + strings.Repeat("c", n) + "\n1", "{\n  @" + strings.Repeat("a", n) + ": 1\n}"} {
+				crAdd(&out, seen, crCase{Entry: "schema", Text: []byte(e), Src: "JSchemaScan/long-string"})
+			}
+			crAdd(&out, seen, crCase{Entry: "regex", Text: []byte("/" + strings.Repeat("a", n) + "/"), Src: "RegexDelim/long-string"})
+			nl += 11
+		}
+		c.Set("long_run_cases", nl)
 		c.Set("pumped_cases", np+len(runs)*24)
 	}
 	// ---- K. the projects of the semantic specifications: whatever a model of another property can build is an input
@@ -487,7 +515,14 @@ func crCases(c *core.Ctx) ([]json.RawMessage, error) {
 			if cs.Extra["type"] != "" {
 				types["@t"] = cs.Extra["type"]
 			}
-			crAdd(&out, seen, crCase{Entry: "project", Text: []byte(cs.Extra["root"]), Types: types, Src: "SchemaModelExtra"})
+			switch cs.Skel {
+			case "echo:enum":
+				crAdd(&out, seen, crCase{Entry: "enum", Text: []byte(cs.Extra["root"]), Src: "SchemaModelExtra/echo"})
+			case "echo:regex":
+				crAdd(&out, seen, crCase{Entry: "regex", Text: []byte(cs.Extra["root"]), Src: "SchemaModelExtra/echo"})
+			default:
+				crAdd(&out, seen, crCase{Entry: "project", Text: []byte(cs.Extra["root"]), Types: types, Src: "SchemaModelExtra"})
+			}
 			nk++
 		}
 		c.Set("model_projects", nk)
